@@ -6,7 +6,7 @@
 cd "$(dirname "$0")/.."
 PATCH="$(readlink -f "$1")"; TIER="${2:-quick}"
 NAME="$(basename "$PATCH" .patch)"
-[ "$NAME" = patch ] && NAME="$(basename "$(dirname "$PATCH")")"
+[ "$NAME" = patch.diff ] && NAME="$(basename "$(dirname "$PATCH")")"
 export GOFLAGS=-mod=mod GOPROXY=off GOSUMDB=off GOTOOLCHAIN=local
 SCR="${TMPDIR:-/tmp}/verif-selftest/$NAME"
 rm -rf "$SCR"; mkdir -p "$SCR/root"
